@@ -269,6 +269,8 @@ public:
         RespScript sc; { std::lock_guard<std::mutex> g(G.m); sc = G.script; }
         // "/slow<ms>": keep this worker busy for a while (used to make events coalesce on other connections)
         if (req.resource().rfind("/slow", 0) == 0) std::this_thread::sleep_for(std::chrono::milliseconds(atoi(req.resource().c_str() + 5)));
+        // "/big<KB>": a large fixed response (used to leave a connection with a blocked write)
+        if (req.resource().rfind("/big", 0) == 0) { response.send(Http::Code::Ok, std::string(static_cast<size_t>(atoi(req.resource().c_str() + 4)) * 1024, 'x')); return; }
         std::string result = "none", err; long size = -1;
         std::string seen = dumpRequest(req);
         try {
@@ -728,11 +730,12 @@ std::string opTimeout2(const std::vector<std::string>& w)
 // life <hdrMs> <threads> <scripts a,b,c...>: one connection per script, all opened first, then the actions are played position by
 // position across the connections.  Actions: R full request + read the response, P partial request, C close, H half-close (shutdown
 // WR, read to EOF, close), X reset (SO_LINGER 0), T silence for hdr + 1300 ms (then read what the server sent), W wait 50 ms,
-// A abort: partial request + close while the worker is busy with another connection
+// A abort: partial request + close while the worker is busy with another connection, B request an 8 MB answer and do not read it
+// (the connection then has a blocked, non-empty write queue when it is closed or reset)
 std::string opLife(const std::vector<std::string>& w)
 {
     if (w.size() != 4) return "bad-op";
-    Cfg c; c.hdrMs = atoi(w[1].c_str()); c.bodyMs = c.hdrMs; c.threads = atoi(w[2].c_str());
+    Cfg c; c.hdrMs = atoi(w[1].c_str()); c.bodyMs = c.hdrMs; c.threads = atoi(w[2].c_str()); c.maxResp = 16u << 20;
     auto scripts = split(w[3], ',');
     stopEndpoint();
     uint16_t port = ensureEndpoint(c);
@@ -765,6 +768,11 @@ std::string opLife(const std::vector<std::string>& w)
                 sendAll(k.fd, REQ.substr(0, 25)); ::close(k.fd); k.open = false;
                 readResponse(helper, 400); ::close(helper);
             }
+            else if (a == 'B') {
+                // ask for 8 MB and do not read: the server's write blocks, the connection keeps a non-empty write queue
+                int rcv = 4096; ::setsockopt(k.fd, SOL_SOCKET, SO_RCVBUF, &rcv, sizeof rcv);
+                sendAll(k.fd, "GET /big8192 HTTP/1.1\r\nHost: h\r\n\r\n"); std::this_thread::sleep_for(std::chrono::milliseconds(120));
+            }
             else if (a == 'C') { ::close(k.fd); k.open = false; }
             else if (a == 'H') { ::shutdown(k.fd, SHUT_WR); bool cl; readResponse(k.fd, 300, &cl, false); ::close(k.fd); k.open = false; }
             else if (a == 'X') { linger lg { 1, 0 }; ::setsockopt(k.fd, SOL_SOCKET, SO_LINGER, &lg, sizeof lg); ::close(k.fd); k.open = false; }
@@ -785,7 +793,18 @@ std::string opLife(const std::vector<std::string>& w)
     std::this_thread::sleep_for(std::chrono::milliseconds(150));
     int after = countFds();
     // can a new connection still be served?
-    int ok = 0; { int fd = connectTo(port); if (fd >= 0) { sendAll(fd, "GET /w HTTP/1.1\r\nHost: h\r\n\r\n"); ok = statusOf(readResponse(fd, 300)) == 200; ::close(fd); } }
+    // (as many new connections as there were, opened together: they take over the descriptor numbers just released)
+    int ok = 1; {
+        std::vector<int> nf;
+        for (size_t i = 0; i < cs.size(); ++i) nf.push_back(connectTo(port));
+        for (int fd : nf) {
+            if (fd < 0) { ok = 0; continue; }
+            sendAll(fd, "GET /w HTTP/1.1\r\nHost: h\r\n\r\n");
+            std::string r = readResponse(fd, 300);
+            if (statusOf(r) != 200 || r.size() > 400) ok = 0;
+        }
+        for (int fd : nf) if (fd >= 0) ::close(fd);
+    }
     std::string out;
     std::vector<std::pair<int, char>> ev; { std::lock_guard<std::mutex> g(LIFE.m); ev = LIFE.ev; }
     for (size_t i = 0; i < cs.size(); ++i) {
